@@ -1,9 +1,34 @@
 package sym
 
 import (
+	"encoding/hex"
+	"fmt"
 	"go/token"
 	"go/types"
 )
+
+// replayState feeds recorded intrinsic values to a concrete run of a harness
+// under the engine (encoder validation: the same inputs are also run natively
+// and the observations compared).
+type replayState struct {
+	items []ReplayItem
+	pos   int
+	out   []string
+}
+
+func (r *replayState) next(kind string) ReplayItem {
+	if r.pos >= len(r.items) {
+		return ReplayItem{Kind: kind}
+	}
+	it := r.items[r.pos]
+	r.pos++
+	return it
+}
+
+func (r *replayState) nextString() value {
+	b, _ := hex.DecodeString(r.next("str").Hex)
+	return string(b)
+}
 
 // Harness intrinsics (functions named v* in the package under test). Under
 // the engine they produce symbolic values and record them as replay events;
@@ -14,6 +39,10 @@ type intrinsicFn func(fr *frame, args []value) value
 var intrinsics map[string]intrinsicFn
 
 func (i *interpreter) symScalar(k types.BasicKind, kind string) value {
+	if rp := i.replay; rp != nil {
+		it := rp.next("int")
+		return mkConcrete(k, it.Int)
+	}
 	s := i.freshVar(k, "v")
 	ps := i.ps()
 	ps.events = append(ps.events, Event{Kind: kind, Term: s.T})
@@ -30,6 +59,9 @@ func init() {
 		// vChoose(n): a selector in [0,n), enumerated by forking
 		"vChoose": func(fr *frame, args []value) value {
 			n := args[0].(int)
+			if rp := fr.i.replay; rp != nil {
+				return int(rp.next("int").Int)
+			}
 			c := fr.i.forkN(n)
 			ps := fr.i.ps()
 			ps.events = append(ps.events, Event{Kind: "int", Val: uint64(c)})
@@ -38,6 +70,9 @@ func init() {
 		// vString(max): any string of length 0..max, any bytes
 		"vString": func(fr *frame, args []value) value {
 			max := args[0].(int)
+			if rp := fr.i.replay; rp != nil {
+				return rp.nextString()
+			}
 			ps := fr.i.ps()
 			n := fr.i.forkN(max + 1)
 			cells := make([]value, n)
@@ -50,6 +85,9 @@ func init() {
 		// vStringN(n): any string of length exactly n
 		"vStringN": func(fr *frame, args []value) value {
 			n := args[0].(int)
+			if rp := fr.i.replay; rp != nil {
+				return rp.nextString()
+			}
 			ps := fr.i.ps()
 			cells := make([]value, n)
 			for k := range cells {
@@ -145,6 +183,9 @@ func init() {
 		"vIsEngine": func(fr *frame, args []value) value { return true },
 		// vOut records an observed output string for the evidence samples
 		"vOut": func(fr *frame, args []value) value {
+			if rp := fr.i.replay; rp != nil {
+				rp.out = append(rp.out, fmt.Sprintf("VOUT %q", args[0]))
+			}
 			ps := fr.i.ps()
 			if len(ps.outputs) < 8 {
 				ps.outputs = append(ps.outputs, toString(args[0]))
